@@ -251,7 +251,7 @@ theorem getAllDependencies_mem (df : List (Str × List Str)) (name x : Str) :
 
 /-! ### unchanged outputs are not disturbed -/
 
-/-- `replace_if_different(dst, tmp)` with equal contents: `dst` keeps content **and mtime**, the
+/-- `replace_if_different(dst, tmp)` with equal contents: `dst` keeps content, mode **and mtime**, the
 temporary is gone, every other file is as before — the file system is the old one minus `tmp` -/
 theorem replace_if_different_keeps_mtime (fs : FS) (dst tmp : Str) (d t : FileSt)
     (hd : fs.get dst = some d) (ht : fs.get tmp = some t) (hne : tmp ≠ dst)
@@ -281,6 +281,82 @@ theorem replace_if_different_updates (fs : FS) (dst tmp : Str) (d t : FileSt)
   have : ¬ dst = tmp := fun e => hne e.symm
   simp [this, diff]
 
+/-! ### `do_conf_file`: content, mode and mtime of an unchanged templated output -/
+
+/-- `do_conf_file` (write `dst~`, `copymode(src, dst~)`, `replace_if_different(dst, dst~)`) with unchanged
+content: **every** file is in the state it was — `dst` keeps content, mode and mtime whatever the
+template's mode is — and the temporary is gone -/
+theorem doConfFile_unchanged_keeps_state (fs : FS) (src dst : Str) (s old : FileSt)
+    (hs : fs.get src = some s) (hd : fs.get dst = some old) (hsrc : src ≠ tmpOf dst) :
+    (∀ q, q ≠ tmpOf dst → (doConfFile fs src dst old.content).get q = fs.get q) ∧
+    (doConfFile fs src dst old.content).get (tmpOf dst) = none := by
+  have hne : tmpOf dst ≠ dst := tmpOf_ne dst
+  have hne' : ¬ dst = tmpOf dst := fun e => hne e.symm
+  have h1 : (fs.write (tmpOf dst) old.content).get (tmpOf dst)
+      = some ⟨old.content, fs.clock + 1, fs.writeMode (tmpOf dst)⟩ := by rw [get_write]; simp
+  have h2 : (fs.write (tmpOf dst) old.content).get src = some s := by rw [get_write]; simp [hsrc, hs]
+  have g := fun q => get_copymode (fs.write (tmpOf dst) old.content) src (tmpOf dst) q s _ h2 h1
+  have h3 : ((fs.write (tmpOf dst) old.content).copymode src (tmpOf dst)).get dst = some old := by
+    rw [g]; simp [hne', get_write, hd]
+  have h4 := g (tmpOf dst)
+  simp only [if_true] at h4
+  have r := fun q => get_replaceIfDifferent _ dst (tmpOf dst) q old _ h3 h4 hne
+  constructor
+  · intro q hq
+    unfold doConfFile
+    rw [r q]
+    by_cases e : q = dst
+    · subst e; simp [hq, hd]
+    · simp [hq, e, g, get_write]
+  · unfold doConfFile
+    rw [r (tmpOf dst)]; simp
+
+/-- … and when the content did change the new text is installed with the template's mode -/
+theorem doConfFile_changed_installs (fs : FS) (src dst c : Str) (s old : FileSt)
+    (hs : fs.get src = some s) (hd : fs.get dst = some old) (hsrc : src ≠ tmpOf dst) (hc : old.content ≠ c) :
+    (doConfFile fs src dst c).get dst = some ⟨c, fs.clock + 1, s.mode⟩ := by
+  have hne : tmpOf dst ≠ dst := tmpOf_ne dst
+  have hne' : ¬ dst = tmpOf dst := fun e => hne e.symm
+  have h1 : (fs.write (tmpOf dst) c).get (tmpOf dst) = some ⟨c, fs.clock + 1, fs.writeMode (tmpOf dst)⟩ := by
+    rw [get_write]; simp
+  have h2 : (fs.write (tmpOf dst) c).get src = some s := by rw [get_write]; simp [hsrc, hs]
+  have g := fun q => get_copymode (fs.write (tmpOf dst) c) src (tmpOf dst) q s _ h2 h1
+  have h3 : ((fs.write (tmpOf dst) c).copymode src (tmpOf dst)).get dst = some old := by
+    rw [g]; simp [hne', get_write, hd]
+  have h4 := g (tmpOf dst)
+  simp only [if_true] at h4
+  unfold doConfFile
+  rw [get_replaceIfDifferent _ dst (tmpOf dst) dst old _ h3 h4 hne]
+  simp [hne', hc]
+
+/-- the reason the order and the comparison matter (a seeded defect of exactly this shape was once missed):
+with the replace done *before* `copymode` and a comparison that also looks at the mode, the statement
+"unchanged content ⇒ unchanged state" … -/
+def doConfFileSwapped_unchanged_keeps_state_full : Prop :=
+  ∀ (fs : FS) (src dst : Str) (s old : FileSt), fs.get src = some s → fs.get dst = some old →
+    old.mode = s.mode → src ≠ tmpOf dst →
+    (doConfFileSwapped fs src dst old.content).get dst = some old
+
+/-- … is false as soon as the template's mode is not the default one: script template 0755 (= 493),
+output already in place with that mode and the right text, one more run: new mtime -/
+theorem doConfFileSwapped_unchanged_keeps_state_counterexample :
+    ¬ doConfFileSwapped_unchanged_keeps_state_full := by
+  intro h
+  have := h ⟨[("s.in".toList, ⟨"x".toList, 1, 493⟩), ("s".toList, ⟨"x".toList, 2, 493⟩)], 10⟩
+    "s.in".toList "s".toList ⟨"x".toList, 1, 493⟩ ⟨"x".toList, 2, 493⟩ rfl rfl rfl (by decide)
+  revert this
+  decide
+
+/-- bytes and mode come out right in that variant — only the mtime moves, which is why nothing but an
+mtime comparison on a non-default-mode template can see it -/
+example :
+    (doConfFileSwapped ⟨[("s.in".toList, ⟨"x".toList, 1, 493⟩), ("s".toList, ⟨"x".toList, 2, 493⟩)], 10⟩
+      "s.in".toList "s".toList "x".toList).get "s".toList = some ⟨"x".toList, 11, 493⟩ := by decide
+
+example :
+    (doConfFile ⟨[("s.in".toList, ⟨"x".toList, 1, 493⟩), ("s".toList, ⟨"x".toList, 2, 493⟩)], 10⟩
+      "s.in".toList "s".toList "x".toList).get "s".toList = some ⟨"x".toList, 2, 493⟩ := by decide
+
 /-- every writer leaves exactly the requested content at the path -/
 theorem writeOut_content (fs : FS) (w : Writer) (p c : Str) (old : FileSt) (hp : fs.get p = some old) :
     ((writeOut fs w p c).get p).map FileSt.content = some c := by
@@ -309,7 +385,7 @@ def inPlace_unchanged_keeps_mtime_full : Prop :=
 
 theorem inPlace_unchanged_keeps_mtime_counterexample : ¬ inPlace_unchanged_keeps_mtime_full := by
   intro h
-  have := h ⟨[("compile_commands.json".toList, ⟨"[]".toList, 0⟩)], 5⟩ "compile_commands.json".toList ⟨"[]".toList, 0⟩ rfl
+  have := h ⟨[("compile_commands.json".toList, ⟨"[]".toList, 0, 420⟩)], 5⟩ "compile_commands.json".toList ⟨"[]".toList, 0, 420⟩ rfl
   revert this
   decide
 
@@ -321,7 +397,7 @@ def viaReplace_unchanged_keeps_mtime_full : Prop :=
 
 theorem viaReplace_unchanged_keeps_mtime_counterexample : ¬ viaReplace_unchanged_keeps_mtime_full := by
   intro h
-  have := h ⟨[("intro-tests.json".toList, ⟨"[]".toList, 0⟩)], 5⟩ "intro-tests.json".toList ⟨"[]".toList, 0⟩ rfl
+  have := h ⟨[("intro-tests.json".toList, ⟨"[]".toList, 0, 420⟩)], 5⟩ "intro-tests.json".toList ⟨"[]".toList, 0, 420⟩ rfl
   revert this
   decide
 
@@ -420,18 +496,18 @@ theorem reconfigure_noop_identity (fs : FS) (outs : List (Writer × Str × Str))
 compile_commands.json; reconfigure rewrites all four with the same text: contents identical,
 `config.h` and `a.pc` keep their mtimes -/
 example :
-    let fs : FS := ⟨[("config.h".toList, ⟨"#define A\n".toList, 1⟩),
-                     ("build.ninja".toList, ⟨"rule x\n".toList, 2⟩),
-                     ("a.pc".toList, ⟨"Name: a\n".toList, 3⟩),
-                     ("cc.json".toList, ⟨"[]".toList, 4⟩)], 10⟩
+    let fs : FS := ⟨[("config.h".toList, ⟨"#define A\n".toList, 1, 420⟩),
+                     ("build.ninja".toList, ⟨"rule x\n".toList, 2, 420⟩),
+                     ("a.pc".toList, ⟨"Name: a\n".toList, 3, 420⟩),
+                     ("cc.json".toList, ⟨"[]".toList, 4, 420⟩)], 10⟩
     let outs := [(Writer.viaReplaceIfDifferent, "config.h".toList, "#define A\n".toList),
                  (Writer.viaReplaceIfDifferent, "a.pc".toList, "Name: a\n".toList),
                  (Writer.inPlace, "cc.json".toList, "[]".toList),
                  (Writer.viaReplace, "build.ninja".toList, "rule x\n".toList)]
-    (configure fs outs).get "config.h".toList = some ⟨"#define A\n".toList, 1⟩ ∧
-    (configure fs outs).get "build.ninja".toList = some ⟨"rule x\n".toList, 14⟩ ∧
-    (configure fs outs).get "a.pc".toList = some ⟨"Name: a\n".toList, 3⟩ ∧
-    (configure fs outs).get "cc.json".toList = some ⟨"[]".toList, 13⟩ := by
+    (configure fs outs).get "config.h".toList = some ⟨"#define A\n".toList, 1, 420⟩ ∧
+    (configure fs outs).get "build.ninja".toList = some ⟨"rule x\n".toList, 14, 420⟩ ∧
+    (configure fs outs).get "a.pc".toList = some ⟨"Name: a\n".toList, 3, 420⟩ ∧
+    (configure fs outs).get "cc.json".toList = some ⟨"[]".toList, 13, 420⟩ := by
   decide
 
 end MesonModel.Props.C06
